@@ -21,6 +21,7 @@ const (
 	gMissing  = "https://r9.example/u/missing"
 	gGarbled  = "https://r9.example/u/garbled"
 	gUnknown  = "https://r9.example/u/unknown-type"
+	gShape    = "https://r1.example/c/shape"
 	pubAS     = "as:Public"
 	daveOther = "https://r2.example/u/dave/remote-inbox" // what Dave's remote document says
 )
@@ -32,6 +33,8 @@ type gnode struct {
 	members []string // collection members
 	ordered bool
 	page    bool
+	typ     string // explicit document type (collection shapes family); "" = derived from ordered / page
+	shape   int    // 0: member list as given; 1: the items member is absent altogether; 2: an empty array
 }
 
 type graph map[string]*gnode
@@ -79,7 +82,20 @@ func (g graph) install(a *ap.App) {
 			if n.page {
 				typ = "CollectionPage"
 			}
-			a.PutRemote(id, Doc(typ, id, member, items))
+			if n.typ != "" {
+				typ, member = n.typ, "items"
+				if strings.HasPrefix(typ, "Ordered") {
+					member = "orderedItems"
+				}
+			}
+			switch n.shape {
+			case 1: // the usual paged collection document: no items member at all
+				a.PutRemote(id, Doc(typ, id, "totalItems", 2, "first", id+"?page=1"))
+			case 2:
+				a.PutRemote(id, Doc(typ, id, member, L{}))
+			default:
+				a.PutRemote(id, Doc(typ, id, member, items))
+			}
 		case "garbled":
 			a.Remote[id] = []byte("{\"type\":\"Person\",\"inbox\":")
 		case "unknown":
@@ -137,9 +153,16 @@ func (g graph) expected(entries []string, limit int, sender string) (inboxes map
 type c02entry struct {
 	id       string
 	embedded bool
+	form     int // 0: IRI / embedded Person; 1: embedded Mention naming the actor by href only; 2: embedded Link with id and a decoy href
 }
 
 func (e c02entry) json() interface{} {
+	switch e.form {
+	case 1:
+		return M{"type": "Mention", "href": e.id, "name": "@someone"}
+	case 2:
+		return M{"type": "Link", "id": e.id, "href": gMissing + "/decoy-href"}
+	}
 	if e.embedded {
 		return Emb("Person", e.id, "inbox", e.id+"/embedded-inbox-must-be-ignored")
 	}
@@ -147,6 +170,12 @@ func (e c02entry) json() interface{} {
 }
 
 func (e c02entry) String() string {
+	switch e.form {
+	case 1:
+		return "{Mention href=" + shortID(e.id) + "}"
+	case 2:
+		return "{Link id=" + shortID(e.id) + " href=decoy}"
+	}
 	if e.embedded {
 		return "{" + shortID(e.id) + "}"
 	}
@@ -161,13 +190,18 @@ func shortID(id string) string {
 }
 
 var c02alphabet = []c02entry{
-	{Carol, false}, {Carol, true}, {Dave, false}, {Dave, true}, {Erin, false}, {Frank, false}, {gMissing, false}, {gGarbled, false}, {gUnknown, false},
-	{gK1, false}, {gK2, false}, {gP1, false}, {Public, false}, {pubAS, false}, {Alice, false},
+	{id: Carol}, {id: Carol, embedded: true}, {id: Dave}, {id: Dave, embedded: true}, {id: Erin}, {id: Frank}, {id: gMissing}, {id: gGarbled}, {id: gUnknown},
+	{id: gK1}, {id: gK2}, {id: gP1}, {id: Public}, {id: pubAS}, {id: Alice},
 }
+
+// reference spellings beyond IRI / embedded actor (a second, smaller family)
+var c02spellings = []c02entry{{id: Carol, form: 1}, {id: Carol, form: 2}, {id: Dave, form: 1}, {id: Dave, form: 2}, {id: gK1, form: 1}, {id: gK1, form: 2}, {id: Alice, form: 1}, {id: Public, form: 1}}
 
 var addrProps = []string{"to", "bto", "cc", "bcc", "audience"}
 
 type c02case struct {
+	shapeTyp     string // collection shapes family: document type of the node gShape
+	shape        int
 	entries      []c02entry
 	placement    int // 0: all in 'to'; 1: i-th entry into the i-th addressing property; 2: reversed properties
 	k1           []string
@@ -186,8 +220,11 @@ func (c c02case) String() string {
 		k = append(k, shortID(m))
 	}
 	ss := ""
+	if c.shapeTyp != "" {
+		ss = fmt.Sprintf(" S=%s/%s", c.shapeTyp, []string{"one-member", "no-items-member", "empty-items", "two-members"}[c.shape])
+	}
 	if c.senderStored {
-		ss = " sender-inbox-stored"
+		ss += " sender-inbox-stored"
 	}
 	return fmt.Sprintf("%s placement=%d entries=[%s] K1=[%s] limit=%d%s", c.entry, c.placement, strings.Join(es, " "), strings.Join(k, " "), c.limit, ss)
 }
@@ -287,7 +324,7 @@ func C02(tier string) int {
 			}
 			for _, k1 := range ks {
 				for _, lim := range ls {
-					cases = append(cases, c02case{es, pl, k1, lim, "Send", false})
+					cases = append(cases, c02case{entries: es, placement: pl, k1: k1, limit: lim, entry: "Send"})
 					namesSender := false
 					for _, e := range es {
 						if e.id == Alice {
@@ -300,7 +337,7 @@ func C02(tier string) int {
 						}
 					}
 					if namesSender {
-						cases = append(cases, c02case{es, pl, k1, lim, "Send", true})
+						cases = append(cases, c02case{entries: es, placement: pl, k1: k1, limit: lim, entry: "Send", senderStored: true})
 					}
 				}
 			}
@@ -308,15 +345,44 @@ func C02(tier string) int {
 	}
 	// client POST entry point (subset)
 	for _, es := range seqs(c02alphabet, 2) {
-		cases = append(cases, c02case{es, 1, []string{Carol, gK2}, 2, "PostOutbox", false})
+		cases = append(cases, c02case{entries: es, placement: 1, k1: []string{Carol, gK2}, limit: 2, entry: "PostOutbox"})
 		for _, e := range es {
 			if e.id == Alice {
-				cases = append(cases, c02case{es, 1, []string{Carol, gK2}, 2, "PostOutbox", true})
+				cases = append(cases, c02case{entries: es, placement: 1, k1: []string{Carol, gK2}, limit: 2, entry: "PostOutbox", senderStored: true})
 				break
 			}
 		}
 	}
-	res.Rule = fmt.Sprintf("federation graphs over {dereferencable actor, embedded actor, actor with stored inbox (remote inbox differing), actor with stored = remote inbox, missing, garbled, unknown-type, Collection K1 with every member sequence of length <= %d over 8 nodes, OrderedCollection K2 = [actor, K1], page P1 = [actor, P1, K2] (cycles), Public in both IRI spellings, the sender (named directly or as a member; with and without an inbox of its own stored by the application)}; every ordered sequence of <= %d addressed entries over that 15-entry alphabet, placed in 'to' only / spread over to,bto,cc,bcc,audience / reversed; depth limit %v; entry points Send and client POST; %d runs; plus all two-delivery histories through one actor instance over 2 senders x 5 addressees (first) x 25 addressee pairs (second); oracle: an independent recursive function over the graph description gives the expected inbox set and the IRIs that may be dereferenced; non-trivial = runs in which something was dereferenced or delivered, distinct by (entries, placement, K1, limit)", len(k1s[len(k1s)-1]), maxEntries, limits, len(cases))
+	// collection document shapes: each of the four collection types, with its items member absent (the
+	// usual paged collection: totalItems + first), an empty array, one or two members; addressed
+	// directly before / after a plain actor, or reached as the only member of K1
+	for _, typ := range []string{"Collection", "OrderedCollection", "CollectionPage", "OrderedCollectionPage"} {
+		for shape := 0; shape < 4; shape++ {
+			for _, lim := range limits {
+				for _, ent := range []string{"Send", "PostOutbox"} {
+					X, C := c02entry{id: gShape}, c02entry{id: Carol}
+					for _, es := range [][]c02entry{{X}, {X, C}, {C, X}, {C, X, {id: Dave}}} {
+						cases = append(cases, c02case{shapeTyp: typ, shape: shape, entries: es, placement: 1, k1: []string{Erin}, limit: lim, entry: ent})
+					}
+					cases = append(cases, c02case{shapeTyp: typ, shape: shape, entries: []c02entry{{id: gK1}, C}, k1: []string{gShape}, limit: lim, entry: ent},
+						c02case{shapeTyp: typ, shape: shape, entries: []c02entry{{id: gK1}}, k1: []string{Erin, gShape}, limit: lim, entry: ent})
+				}
+			}
+		}
+	}
+	// reference spellings: an addressed entry written as an embedded Mention (href only) or as an embedded
+	// Link carrying both id and a decoy href, alone and next to each entry of the main alphabet
+	for _, sp := range c02spellings {
+		for _, lim := range limits[:2] {
+			cases = append(cases, c02case{entries: []c02entry{sp}, k1: []string{Carol, gK2}, limit: lim, entry: "Send"})
+			for _, o := range c02alphabet {
+				cases = append(cases, c02case{entries: []c02entry{sp, o}, placement: 1, k1: []string{Carol, gK2}, limit: lim, entry: "Send"},
+					c02case{entries: []c02entry{o, sp}, placement: 0, k1: []string{Carol, gK2}, limit: lim, entry: "Send"})
+			}
+		}
+		cases = append(cases, c02case{entries: []c02entry{sp, {id: Erin}}, placement: 1, k1: []string{Carol, gK2}, limit: 2, entry: "PostOutbox"})
+	}
+	res.Rule = fmt.Sprintf("federation graphs over {dereferencable actor, embedded actor, actor with stored inbox (remote inbox differing), actor with stored = remote inbox, missing, garbled, unknown-type, Collection K1 with every member sequence of length <= %d over 8 nodes, OrderedCollection K2 = [actor, K1], page P1 = [actor, P1, K2] (cycles), Public in both IRI spellings, the sender (named directly or as a member; with and without an inbox of its own stored by the application)}; plus a collection-shape family (each of Collection / OrderedCollection / CollectionPage / OrderedCollectionPage with its items member absent (totalItems + first only), empty, one or two members; addressed directly, next to actors, or reached through K1) and a reference-spelling family (an entry written as an embedded Mention with href only, or as an embedded Link with id and a decoy href, alone and paired with every alphabet entry); every ordered sequence of <= %d addressed entries over that 15-entry alphabet, placed in 'to' only / spread over to,bto,cc,bcc,audience / reversed; depth limit %v; entry points Send and client POST; %d runs; plus all two-delivery histories through one actor instance over 2 senders x 5 addressees (first) x 25 addressee pairs (second); oracle: an independent recursive function over the graph description gives the expected inbox set and the IRIs that may be dereferenced; non-trivial = runs in which something was dereferenced or delivered, distinct by (entries, placement, K1, limit)", len(k1s[len(k1s)-1]), maxEntries, limits, len(cases))
 	res.Assumptions = []string{"order of recipients and how often one IRI is dereferenced are not asserted",
 		"documents that decode to a known non-actor type or to an actor without inbox are outside the alphabet (the statement is silent; C11 covers crashes)",
 		"the stored inbox is consulted for directly addressed actors only, as the code does; collection members with a stored inbox have stored == remote inbox"}
@@ -337,6 +403,18 @@ func C02(tier string) int {
 		for _, c := range cases[lo:hi] {
 			c := c
 			g := baseGraph(c.k1)
+			if c.shapeTyp != "" {
+				n := &gnode{kind: "collection", typ: c.shapeTyp}
+				switch c.shape {
+				case 0:
+					n.members = []string{Frank}
+				case 1, 2:
+					n.shape = c.shape
+				case 3:
+					n.members = []string{Frank, Erin}
+				}
+				g[gShape] = n
+			}
 			if c.senderStored {
 				g[Alice].stored = Alice + "/inbox"
 			}
